@@ -108,6 +108,20 @@ func (ex *Exec) ctxFor(fr *frame, st *State, lc *loopCtx) *EvalCtx {
 			ctx.vars[p.Name()] = tv{v, p.Type()}
 		}
 	}
+	if lc != nil {
+		// a parameter that is reassigned in the loop is, inside the loop's clauses, its current value (the header phi)
+		for _, in := range lc.l.Header.Instrs {
+			ph, ok := in.(*ssa.Phi)
+			if !ok {
+				break
+			}
+			if _, isParam := ctx.vars[ph.Comment]; isParam {
+				if v, ok := st.vals[ph]; ok {
+					ctx.vars[ph.Comment] = tv{v, ph.Type()}
+				}
+			}
+		}
+	}
 	return ctx
 }
 
